@@ -76,6 +76,19 @@ def main():
         print(f'unknown or unclaimed property {prop}')
         return 2
     cfg = PROPS[prop]
+    replay_target = None
+    if args.replay:
+        # --replay <file>: re-decide the obligation named in a replay file against /repo's current tree
+        try:
+            rp = json.load(open(args.replay))
+            replay_target = rp.get('obligation')
+            print(f"replaying obligation {replay_target} (verifier: {rp.get('verifier')}, unit: {rp.get('unit')})")
+            if rp.get('counterexample_playback'):
+                print('recorded counterexample (concrete playback test):')
+                print(rp['counterexample_playback'])
+        except Exception as e:
+            print(f'cannot read replay file {args.replay}: {e}')
+            return 2
     t0 = time.time()
     known = load_known()
     undecided = []
@@ -284,6 +297,15 @@ def main():
     # ---------------- verdict
     for obl, k in known_hits:
         print(f"KNOWN-FINDING: property={prop} {obl} {k['text'] if k else ''}")
+    if replay_target is not None:
+        hit = [v for v in violations if v[0].split('#')[0] == replay_target.split('#')[0]]
+        if hit:
+            obl, path, has_input = hit[0]
+            print(f'REPRODUCED {obl}')
+            print(f'VIOLATION property={prop} replay={path}' + ('' if has_input else ' no-failing-input-found'))
+            return 1
+        print(f'NOT-REPRODUCED {replay_target}: the obligation is discharged on the current tree')
+        return 2 if undecided else 0
     if violations:
         for obl, path, has_input in violations:
             tail = '' if has_input else ' no-failing-input-found'
